@@ -94,8 +94,8 @@ func recv(x float64, intLit bool) (string, bool) {
 	return jsNum(x), false
 }
 
-// padExp2 is the documented distortion of finding C06-TOEXP-EXPONENT-PAD: strconv's %e writes
-// at least two exponent digits.
+// padExp2 is the documented distortion of finding C06-EXPONENT-PAD: at least two exponent digits
+// are written (strconv's %e; pinned by otto's own number_test.go).
 func padExp2(s string) string {
 	i := strings.LastIndexAny(s, "eE")
 	if i < 0 || i+2 >= len(s) {
@@ -171,74 +171,83 @@ func checkFmt(c fmtCase) harness.Outcome {
 		o.Fail = fmt.Sprintf("%s: %s, ES5 %s gives %s", call, got, clause, want)
 		return o
 	}
-	// Compare modulo the known findings, each only while its witness still fails.
-	cands := []string{want.String()}
+	// Compare modulo the known findings, each only while its witness still fails: the candidates are
+	// the model's result passed through exactly the documented distortions.
+	if want.Throws == "" && math.IsInf(x, 0) && c.Fn != "toFixed" && !info.Shortest && harness.Known("C06-FORMAT-INFINITY") {
+		// there is no Infinity step: the value falls through to the range check (RangeError for a
+		// negative argument, although 15.7.4.6 step 6 / 15.7.4.7 step 7 come first) and to strconv,
+		// which spells infinities "+Inf" / "-Inf"
+		excl("C06-FORMAT-INFINITY")
+		outOfRange := arg != nil && (m06.ToInteger(*arg) < 0 || (c.Fn == "toPrecision" && m06.ToInteger(*arg) < 1))
+		if got != "+Inf" && got != "-Inf" && !(outOfRange && got == "throws:RangeError") {
+			o.Fail = fmt.Sprintf("%s = %q, ES5 %s gives %q", call, got, clause, want)
+		}
+		return o
+	}
 	if c.Fn == "toPrecision" && arg == nil && log10Zone(x) && harness.Known("C06-TOSTRING-LOG10") {
 		excl("C06-TOSTRING-LOG10") // toPrecision(undefined) is ToString(x)
 		return o
 	}
-	if want.Throws == "" {
-		if info.Tie && harness.Known("C06-FORMAT-TIES") {
-			// strconv rounds an exact tie to even; ES5 picks the larger n. The other candidate is the
-			// model with exactly that distortion.
-			var down m06.Res
-			m06.TieToEven = true
-			switch c.Fn {
-			case "toFixed":
-				down, _ = m06.ToFixed(x, arg)
-			case "toExponential":
-				down, _ = m06.ToExponential(x, arg)
-			case "toPrecision":
-				down, _ = m06.ToPrecision(x, arg)
-			}
-			m06.TieToEven = false
-			cands = append(cands, down.String())
-			excl("C06-FORMAT-TIES")
+	type cand struct {
+		s    string
+		excl []string
+	}
+	cands := []cand{{s: want.String()}}
+	add := func(id string, f func(string) string) {
+		if !harness.Known(id) {
+			return
 		}
-		if info.NegZero && harness.Known("C06-FORMAT-NEGZERO") {
-			for _, s := range cands {
-				cands = append(cands, "-"+s)
+		n := len(cands)
+		for _, cd := range cands[:n] {
+			if t := f(cd.s); t != cd.s {
+				cands = append(cands, cand{t, append(append([]string(nil), cd.excl...), id)})
 			}
-			excl("C06-FORMAT-NEGZERO")
-		}
-		if math.IsInf(x, 0) && c.Fn != "toFixed" && !info.Shortest && harness.Known("C06-FORMAT-INFINITY") {
-			// there is no Infinity step: the value falls through to the range check (RangeError for a
-			// negative argument, although 15.7.4.6 step 6 / 15.7.4.7 step 7 come first) and to strconv,
-			// which spells infinities "+Inf" / "-Inf"
-			excl("C06-FORMAT-INFINITY")
-			outOfRange := arg != nil && (m06.ToInteger(*arg) < 0 || (c.Fn == "toPrecision" && m06.ToInteger(*arg) < 1))
-			if got != "+Inf" && got != "-Inf" && !(outOfRange && got == "throws:RangeError") {
-				o.Fail = fmt.Sprintf("%s = %q, ES5 %s gives %q", call, got, clause, want)
-			}
-			return o
-		}
-		if c.Fn == "toExponential" && info.HasE && harness.Known("C06-TOEXP-EXPONENT-PAD") {
-			n := len(cands)
-			for _, s := range cands[:n] {
-				cands = append(cands, padExp2(s))
-			}
-			if info.E > -10 && info.E < 10 {
-				excl("C06-TOEXP-EXPONENT-PAD")
-			}
-		}
-		if c.Fn == "toPrecision" && arg != nil && isFinite(x) && harness.Known("C06-TOPREC-LAYOUT") {
-			// strconv's %g: other exponent thresholds, trailing zeros dropped, two exponent digits. The
-			// digits are still compared: the texts must denote the same decimal number.
-			excl("C06-TOPREC-LAYOUT")
-			gv, ok := m06.DecimalStringValue(got)
-			if ok {
-				for _, s := range cands {
-					if wv, ok2 := m06.DecimalStringValue(s); ok2 && wv.Cmp(gv) == 0 && strings.HasPrefix(got, "-") == strings.HasPrefix(s, "-") {
-						return o
-					}
-				}
-			}
-			o.Fail = fmt.Sprintf("%s = %q does not denote the number of the ES5 %s result %q (compared by value while C06-TOPREC-LAYOUT stands)", call, got, clause, want)
-			return o
 		}
 	}
-	for _, s := range cands {
-		if got == s {
+	if want.Throws == "" {
+		run := func() (m06.Res, m06.Info) {
+			switch c.Fn {
+			case "toFixed":
+				return m06.ToFixed(x, arg)
+			case "toExponential":
+				return m06.ToExponential(x, arg)
+			}
+			return m06.ToPrecision(x, arg)
+		}
+		infos := map[string]m06.Info{want.S: info}
+		if info.Tie && harness.Known("C06-FORMAT-TIES") {
+			// strconv rounds an exact tie to even; ES5 picks the larger n
+			m06.TieToEven = true
+			down, dinfo := run()
+			m06.TieToEven = false
+			if down.S != want.S {
+				cands = append(cands, cand{down.S, []string{"C06-FORMAT-TIES"}})
+				infos[down.S] = dinfo
+			}
+		}
+		if c.Fn == "toPrecision" && arg != nil && isFinite(x) && x != 0 {
+			// %g switches to the exponential form for e < -4; ES5 for e < -6
+			add("C06-TOPREC-THRESHOLD", func(s string) string {
+				if in := infos[s]; in.HasE && (in.E == -5 || in.E == -6) {
+					return in.Sign + m06.ExpForm(in.Digits, in.E)
+				}
+				return s
+			})
+		}
+		if c.Fn == "toPrecision" && arg != nil {
+			// %g drops trailing zeros of the fraction ("1" for (1).toPrecision(3)); pinned by otto's math_test.go
+			add("C06-TOPREC-TRAILING-ZEROS", stripFractionZeros)
+		}
+		if c.Fn == "toExponential" || (c.Fn == "toPrecision" && arg != nil) {
+			add("C06-EXPONENT-PAD", padExp2)
+		}
+		if info.NegZero {
+			add("C06-FORMAT-NEGZERO", func(s string) string { return "-" + s })
+		}
+	}
+	for _, cd := range cands {
+		if got == cd.s {
+			o.Excluded = append(o.Excluded, cd.excl...)
 			return o
 		}
 	}
@@ -246,7 +255,23 @@ func checkFmt(c fmtCase) harness.Outcome {
 	if info.Tie {
 		o.Fail += " (x×10^digits is an exact tie: \"if there are two such n, pick the larger n\")"
 	}
+	if len(cands) > 1 {
+		o.Fail += fmt.Sprintf(" (also not one of the %d renderings that the still-open findings explain)", len(cands)-1)
+	}
 	return o
+}
+
+// stripFractionZeros is the documented distortion of finding C06-TOPREC-TRAILING-ZEROS.
+func stripFractionZeros(s string) string {
+	mant, exp := s, ""
+	if i := strings.IndexByte(s, 'e'); i >= 0 {
+		mant, exp = s[:i], s[i:]
+	}
+	if strings.Contains(mant, ".") {
+		mant = strings.TrimRight(mant, "0")
+		mant = strings.TrimSuffix(mant, ".")
+	}
+	return mant + exp
 }
 
 // tieArg picks the argument that makes x an exact tie / a near tie for fn, when there is one.
